@@ -922,10 +922,13 @@ def _fresh_mutable_defaults(init: FunctionType, fields: list[Field]) -> Function
 
     @wraps(init)
     def __init__(self: Structure, *args, **kwargs) -> None:
-        if len(args) < len(fields):
-            for i, field in mutable:
-                if i >= len(args) and kwargs.get(field._name) is None:
-                    kwargs[field._name] = field.type.__default__()
+        args = list(args)
+        for i, field in mutable:
+            if i < len(args):
+                if args[i] is None:
+                    args[i] = field.type.__default__()
+            elif kwargs.get(field._name) is None:
+                kwargs[field._name] = field.type.__default__()
         init(self, *args, **kwargs)
 
     return __init__
